@@ -2852,13 +2852,28 @@ class WBEMConnection:  # pylint: disable=too-many-instance-attributes
                                                  namespace)
         return (rtn_objects, end_of_sequence, rtn_ctxt)
 
+    def _get_object_nodes(self, result):
+        """
+        Return the objects of the (name, attrs, object) nodes in the
+        IRETURNVALUE of an association or query operation.
+        """
+        objects = []
+        for node in [] if result is None else result[0][2]:
+            if not isinstance(node, tuple) or len(node) != 3:
+                raise CIMXMLParseError(
+                    _format("Unexpected {0} object in result list",
+                            node.__class__.__name__),
+                    conn_id=self.conn_id)
+            objects.append(node[2])
+        return objects
+
     def _get_returned_objects(self, result, ObjectName):
         """
         Support for Associators, References operations
         Get returned objects and validate that the types correspond to the types
         for Associators and References
         """
-        objects = [] if result is None else [x[2] for x in result[0][2]]
+        objects = self._get_object_nodes(result)
 
         if isinstance(ObjectName, CIMInstanceName):
             # instance-level invocation
@@ -2871,14 +2886,13 @@ class WBEMConnection:  # pylint: disable=too-many-instance-attributes
                         conn_id=self.conn_id)
         else:
             # class-level invocation
-            for classpath, klass in objects:
-                if not isinstance(classpath, CIMClassName) or \
-                        not isinstance(klass, CIMClass):
+            for obj in objects:
+                if not isinstance(obj, tuple) or len(obj) != 2 or \
+                        not isinstance(obj[0], CIMClassName) or \
+                        not isinstance(obj[1], CIMClass):
                     raise CIMXMLParseError(
                         _format("Expecting tuple (CIMClassName, CIMClass) "
-                                "in result list, got tuple ({0}, {1})",
-                                classpath.__class__.__name__,
-                                klass.__class__.__name__),
+                                "in result list, got {0!A}", obj),
                         conn_id=self.conn_id)
         return objects
 
@@ -2890,7 +2904,7 @@ class WBEMConnection:  # pylint: disable=too-many-instance-attributes
         CIMInstanceName if the request was CIMInstanceName or
         CIMClassName if the request was CIMClassName
         """
-        objects = [] if result is None else [x[2] for x in result[0][2]]
+        objects = self._get_object_nodes(result)
 
         if isinstance(ObjectName, CIMInstanceName):
             # instance-level invocation
@@ -4683,12 +4697,15 @@ class WBEMConnection:  # pylint: disable=too-many-instance-attributes
                 QueryLanguage=QueryLanguage,
                 Query=Query)
 
-            if result is None:
-                instances = []
-            else:
-                instances = [x[2] for x in result[0][2]]
+            instances = self._get_object_nodes(result)
 
             for instance in instances:
+
+                if not isinstance(instance, CIMInstance):
+                    raise CIMXMLParseError(
+                        _format("Expecting CIMInstance object in result list, "
+                                "got {0} object", instance.__class__.__name__),
+                        conn_id=self.conn_id)
 
                 # The ExecQuery CIM-XML operation returns instances as any of
                 # (VALUE.OBJECT | VALUE.OBJECTWITHLOCALPATH |
